@@ -97,7 +97,7 @@ def case_st(draw):
     }
 
 
-def check_case(case, ctx=None):
+def _check_case(case, ctx=None):
     import engineio
     impl = case['impl']
     rep = dict(case)
@@ -378,6 +378,13 @@ def carrier_time(h, payload):
             if needle and f == needle:
                 best = t if best is None else min(best, t)
     return best
+
+
+def check_case(case, ctx=None):
+    from vk import watchdog
+    impl = case.get('impl', '?')
+    watchdog.run_case(lambda: _check_case(case, ctx),
+                      lambda msg: V(impl, 'step-never-completes', 'busy-loop', msg, dict(case)))
 
 
 def run_shard(ctx):
